@@ -85,6 +85,17 @@ CHECKS.update({
    note="Four genuine findings on the unchanged tree are listed as known findings (tlv non-p2p lengths >= 2^63, DBigSize ignoring the record length, ExtraData rebuilt without unknown records in 14 message types, QueryShortChanIDs zero-length id list at maximum size); 'all byte strings' is covered through the stated neighbourhoods only; lnwire compiles against the cached tlv@v1.4.0 (identical source), only the tlv half sees /repo/tlv edits; allocation constants are measured maxima x2.", ref="§4 C10"),
 })
 
+CHECKS.update({
+ "C12": dict(cat="exploration", engine="grid (in-package contractcourt)",
+   technique="exhaustive enumeration of HTLC-set cells x configs x trigger/confirmation scenarios on the real, un-started ChannelArbitrator driven synchronously through advanceState with harness-owned dependencies; a spec function written from the statement judges force-close heights, resolvers, upstream fails and final outcomes; membership patterns cross-checked against chanmc reachable states",
+   text="All cells of direction x per-commitment dust x preimage knowledge x membership pattern x expiry class x forwarded/own for 1-3 (thorough 4) HTLCs, all broadcast-delta settings, grace period, both feeds, every go-to-chain step and confirmed commitment are executed on the real state machine (0.78 M executions quick, 11 M thorough).",
+   note="Three known findings K1-K3 (dust fail-back before the remote commitment confirms; dust / dangling-dust never failed back after our own broadcast; Go-map-order dependent dangling classification); restart and persistence are C13; breach/coop confirmations judged for panic freedom only.", ref="§4 C12"),
+ "C13": dict(cat="fault_enumeration", engine="crashdb+synctest (in-package contractcourt)",
+   technique="exhaustive stop-after-every-commit (singles, pairs, triples) of the real started ChannelArbitrator and resolvers on newBoltArbitratorLog over a crashdb-wrapped bbolt file inside a testing/synctest bubble in re-exec'd worker processes, with a harness-owned chain, notifier, sweeper and channel.db model and restart-like-ChainArbitrator logic; differential against the uninterrupted run",
+   text="For 154 (thorough 450) generated close scenarios (local, remote, remote-pending, breach, coop x HTLC subsets) every stop point k in [1,W], every pair and (small scenarios) every triple of stops is executed; terminal state, per-HTLC upstream outcome, reports, confirmed txs and resolution ordering must equal the uninterrupted run.",
+   note="Found three restart defects, repaired in /repo (fix: b17f90a, 3fea99b, 17b4d33); stop instants are transaction commits; goroutine interleavings inside one stimulus are the runtime's; anchor-type channels only; anchors not compared.", ref="§4 C13"),
+})
+
 NOT_YET = "harness not built yet in this round (planned, see DESIGN.md §4)"
 
 def main():
